@@ -13,7 +13,7 @@ Lemma resolve_once : forall ops c, reach fixed ops c ->
   (cnt is_resolved (events c) <= 1)%nat /\ (cnt is_begin (events c) <= 1)%nat /\
   (cnt is_resolved (events c) = 1%nat <-> sig_open c = false) /\
   forall t th, nth_error (threads c) t = Some th -> is_res_op (t_op th) = true -> t_pc th = PDone ->
-    t_out th = OPanic \/
+    (t_out th = OPanic /\ caller c = false) \/
     (t_out th = ORet /\ In (EBegin t) (events c) /\ In (EResolved t) (events c) /\
      result c = Some (op_res (t_op th))).
 Proof.
@@ -91,7 +91,7 @@ Qed.
    Struct/Done waiter (and ReleaseClients caller) has an enabled step.  (That it then finishes
    in two steps is by the shape of the program; that resolution eventually comes is no_stuck,
    which is not proved here.) *)
-Lemma waiters_released_partial : forall ops c, reach fixed ops c -> sig_open c = false ->
+Lemma waiters_released_partial : forall ops c, reach fixed ops c -> done_open c = false ->
   forall t th, nth_error (threads c) t = Some th -> t_op th = OWait -> t_pc th <> PDone ->
                enabled fixed c t = true.
 Proof.
